@@ -5,6 +5,8 @@
 (*   base    measure_thickness_cpu(points, normals, mask1, mask2, ...)     *)
 (*   moved   the same after a rigid motion of all points and normals       *)
 (*   scaled  voxel size and max thickness multiplied by the same factor    *)
+(*   revoxel the same physical sheets at another voxel size (coordinates   *)
+(*           divided by the factor, voxel size multiplied by it)           *)
 (*   swap    the other direction flag                                      *)
 (*   relabel the base direction with the two masks exchanged               *)
 (*   kernel  find_matches_parallel (numba candidate generator)             *)
@@ -18,6 +20,8 @@
 (* are discarded), the surface label of every point, and per call the      *)
 (* returned pairs with: rank (0 = not admissible), reported thickness and  *)
 (* |t-s|*voxel (both x1e5, nm), the three geometric flags of the pair.     *)
+(* (That no call changes the caller's arrays - C20_ArgumentsUnchanged - is a    *)
+(* frame condition checked by the driver with mbt/argguard.py.)             *)
 (* The predicate ValidPairs of Thickness.tla decides.                      *)
 (***************************************************************************)
 EXTENDS Integers, Sequences, FiniteSets, TLC, Json, IOUtils
@@ -79,6 +83,11 @@ Law(e) ==
     ELSE IF e.kind = "scaled" THEN
         \* same pairs; every thickness is the reference thickness times the factor (pre-multiplied by the driver: o.ref)
         IF SamePairs(e, Events[e.ref]) /\ \A o \in RangeOf(e.out) : Near(o.got, o.ref, 10000)
+        THEN "none" ELSE "C20_VoxelScales"
+    ELSE IF e.kind = "revoxel" THEN
+        \* the same physical sheets expressed at another voxel size (coordinates divided, voxel size multiplied by the
+        \* factor, maximum thickness in nm unchanged): same pairs, same thickness in nm
+        IF SamePairs(e, Events[e.ref]) /\ \A o \in RangeOf(e.out) : Near(o.got, ThickOf(Events[e.ref], o.s), 10000)
         THEN "none" ELSE "C20_VoxelScales"
     ELSE IF e.kind = "relabel" THEN
         \* masks exchanged under the base direction = the other direction with the original masks
